@@ -1,6 +1,7 @@
 import Pxv.Model.Bp
 import Pxv.Model.Attr
 import Pxv.Lemmas.Bp
+import Pxv.Lemmas.Attr
 /-!
 C19 — what you register is what the compiler sees. Property theorems only
 (helper lemmas: `Pxv/Lemmas/Bp.lean`, `Pxv/Lemmas/Attr.lean`).
@@ -160,3 +161,111 @@ example :
   rfl
 
 end Pxv.Bp
+
+/-!
+Part 2: attributes. `emitAttr` is the token list a macro writes on the item (from its `quote!`
+template), `parseItem` is `pavexc_attr_parser::parse` on the item's attributes, `meaning` is what
+the macro arguments mean. Token level: rustc's attribute printer and `syn`'s lexer sit in between.
+-/
+namespace Pxv.Attr
+
+theorem interpret_emit (s : Spec) :
+    interpret ⟨false, ["diagnostic", "pavex", s.kind], .list (some s.fields)⟩
+      = some (fromFields s.kind s.fields) := by
+  obtain ⟨hk, hm⟩ := spec_kind_known s
+  unfold interpret
+  simp only
+  cases hkk : knownKeys s.kind with
+  | none => rw [hkk] at hk; simp at hk
+  | some keys => simp [hm]
+
+/-- **C19 (7) attr_roundtrip.** For every legal combination of macro arguments (every component
+    kind, every subset of optional arguments, every string), the attribute the macro writes is read
+    back by the compiler as exactly the properties the arguments mean: id, path, method set,
+    lifecycle, cloning policy, allow lists, error-handler input index, default flags. -/
+theorem attr_roundtrip (s : Spec) (h : s.legal = true) :
+    parseItem [some (emitAttr s)] = .some (meaning s) := by
+  unfold parseItem emitAttr
+  simp only [List.filterMap_cons, List.filterMap_nil, Option.bind_some,
+    parseOuter_emit s.kind s.fields (spec_allValued s), List.flatten_cons, List.flatten_nil,
+    List.append_nil]
+  simp only [combine, interpret_emit, fromFields_emit s h, Option.isSome_none, Bool.false_eq_true,
+    if_false]
+
+/-- **C19 (8) unknown_attr_rejected.** An attribute in the `diagnostic::pavex` namespace whose kind
+    the compiler does not know is an error, never silently ignored. -/
+theorem unknown_attr_rejected (kind : String) (fs : List Field) (hv : AllValued fs)
+    (hk : knownKeys kind = none) :
+    parseItem [some (attrToks kind fs)] = .unknownAttribute := by
+  unfold parseItem
+  simp only [List.filterMap_cons, List.filterMap_nil, Option.bind_some, parseOuter_emit kind fs hv,
+    List.flatten_cons, List.flatten_nil, List.append_nil]
+  simp [combine, interpret, hk]
+
+/-- Attributes outside the `diagnostic::pavex` namespace (`#[inline]`, `#[doc = ..]`, …) around the
+    Pavex attribute change nothing. -/
+theorem other_attrs_ignored (pre post : List Attribute) (a : Attribute)
+    (hpre : ∀ x ∈ pre, interpret x = none) (hpost : ∀ x ∈ post, interpret x = none) :
+    combine none (pre ++ a :: post) = combine none [a] := by
+  have skip : ∀ (l : List Attribute) (acc : Option Props) (rest : List Attribute),
+      (∀ x ∈ l, interpret x = none) → combine acc (l ++ rest) = combine acc rest := by
+    intro l
+    induction l with
+    | nil => intro acc rest _; rfl
+    | cons x xs ih =>
+      intro acc rest hl
+      simp only [List.cons_append, combine, hl x (by simp)]
+      exact ih acc rest (fun y hy => hl y (by simp [hy]))
+  rw [skip pre none _ hpre]
+  simp only [combine]
+  cases interpret a with
+  | none => simpa [combine] using skip post none [] hpost
+  | some o =>
+    cases o with
+    | some p => simpa [combine] using skip post (some p) [] hpost
+    | none => rfl
+    | unknownAttribute => rfl
+    | invalidParams => rfl
+    | multiple => rfl
+    | panic => rfl
+
+/-- Two Pavex attributes on one item are rejected. -/
+theorem two_pavex_attrs_rejected (s1 s2 : Spec) (h1 : s1.legal = true) (h2 : s2.legal = true) :
+    parseItem [some (emitAttr s1), some (emitAttr s2)] = .multiple := by
+  unfold parseItem emitAttr
+  simp only [List.filterMap_cons, List.filterMap_nil, Option.bind_some,
+    parseOuter_emit _ _ (spec_allValued s1), parseOuter_emit _ _ (spec_allValued s2),
+    List.flatten_cons, List.flatten_nil, List.append_nil, List.cons_append, List.nil_append]
+  simp [combine, interpret_emit, fromFields_emit s1 h1, fromFields_emit s2 h2]
+
+/-- The one combination `#[route]` used to let through although the documentation forbids it
+    (`method` missing without `allow(any_method)`): the compiler does not get properties, it
+    panics. (The macro now rejects it: repo commit "fix: reject #[route] without `method`…".) -/
+theorem route_without_method_panics (id path : String) (ns : Bool) (aef : Option Bool) :
+    parseItem [some (emitAttr (.route id path none ns false aef))] = .panic := by
+  unfold parseItem emitAttr
+  simp only [List.filterMap_cons, List.filterMap_nil, Option.bind_some,
+    parseOuter_emit _ _ (spec_allValued _), List.flatten_cons, List.flatten_nil, List.append_nil]
+  cases ns <;> cases aef <;>
+    simp [combine, interpret, knownKeys, Spec.kind, Spec.fields, fromFields, optField, flagField, hasDup,
+      lookup, getStr, getBool, getMethod]
+
+-- Non-vacuity: legal specs of several kinds, with their attributes and meanings.
+example : parseItem [some (emitAttr (.constructor "A" .requestScoped (some .cloneIfNecessary) (some true) (some false)))]
+    = .some (.constructor "A" .requestScoped (some .cloneIfNecessary) (some true) (some false)) :=
+  attr_roundtrip _ rfl
+example : parseItem [some (emitAttr (.route "R" "/users/{id}" (some (.multiple ["POST", "GET", "POST"])) false false none))]
+    = .some (.route "R" (.some ["GET", "POST"]) "/users/{id}" none) := by
+  rw [attr_roundtrip _ rfl]; decide
+example : parseItem [some (emitAttr (.route "R" "/hook" none true true none))] = .some (.route "R" .any "/hook" none) :=
+  attr_roundtrip _ rfl
+example : emitAttr (.errorHandler "H" 1 (some true))
+    = [.punct '#', .punct '[', .ident "diagnostic", .punct ':', .punct ':', .ident "pavex", .punct ':', .punct ':',
+       .ident "error_handler", .punct '(', .ident "id", .punct '=', .str "H", .punct ',',
+       .ident "error_ref_input_index", .punct '=', .nat 1, .punct ',', .ident "default", .punct '=', .bool true,
+       .punct ',', .punct ')', .punct ']'] := by
+  decide
+example : parseItem [some (attrToks "nope" [⟨"id", some (.str "A")⟩])] = .unknownAttribute :=
+  unknown_attr_rejected _ _ (by intro f hf; simp at hf; subst hf; rfl) rfl
+
+end Pxv.Attr
